@@ -525,14 +525,46 @@ def drone_target(rng, k=0):
     ops += ['target 12 %d' % [20, 21, 21][k % 3], 'target 13 %d' % [21, 20, 21][k % 3], 'get 20 %d' % X,
             'get 21 %d' % X]
     ops += [['source 1 -', 'source 1 1'], ['ssrm 1 1', 'ssadd 1 1'], ['ssrm 1 2', 'ssadd 1 2'],
-            ['sremove 2 drones 21', 'sadd 2 drones 21']][k % 4]
+            ['srm 2 drones 21', 'sadd 2 drones 21']][k % 4]
     ops += ['get 20 %d' % X, 'get 21 %d' % X, 'target 12 -', 'get 20 %d' % X, 'get 21 %d' % X]
     return 'scen:dronetarget', u.lines(), ops, meta_of(ops, u.attr_ids(), setup)
 
 
+def self_skillrq(rng, k=0):
+    """a skill boosts what requires this very skill (filter owner/domain skill requirement with the
+    'current self' pseudo type): the boosted value is read, then the skill's level changes, the skill is
+    removed and added again"""
+    X, S, B = 1010, 1001, 1000
+    LVL = int(AttrId.skill_level)
+    u = U()
+    for a in (X, S, B, LVL):
+        u.attr(a)
+    owner = k % 2 == 0
+    u.effect(2001, EC.passive, [U.mod(F.owner_skillrq if owner else F.domain_skillrq,
+                                      D.character if owner else D.ship, X, OP.post_percent, S, extra=-1),
+                                U.mod(F.item, D.self, S, OP.post_mul, LVL)])
+    u.type(3100, 50, int(TC.ship), {X: 100})
+    u.type(3500, 54, int(TC.skill), {S: 10}, [2001])
+    u.type(3400, 53, int(TC.drone), {X: 100}, skills={3500: 1})
+    u.type(3200, 51, int(TC.module), {X: 100}, skills={3500: 1})
+    ops = base_world(1) + ['new 10 ship 3100 1 0', 'new 20 skill 3500 1 %d' % rng.choice([1, 2]),
+                           'new 21 drone 3400 1 0', 'new 12 modhigh 3200 1 0', 'slot 1 ship 10',
+                           'sadd 1 drones 21', 'rappend 1 high 12', 'sadd 1 skills 20']
+    setup = len(ops)
+    ops += ['get 21 %d' % X, 'get 12 %d' % X, 'level 20 %d' % rng.choice([3, 4, 5]), 'get 21 %d' % X,
+            'get 12 %d' % X, 'srm 1 skills 20', 'get 21 %d' % X, 'get 12 %d' % X, 'sadd 1 skills 20',
+            'get 21 %d' % X, 'get 12 %d' % X, 'level 20 0', 'get 21 %d' % X, 'get 12 %d' % X]
+    return 'scen:selfskill', u.lines(), ops, meta_of(ops, u.attr_ids(), setup)
+
+
+COMMANDS = {'solsys', 'fit', 'new', 'source', 'ssadd', 'ssrm', 'ssclear', 'slot', 'sadd', 'srm', 'sclear', 'skilldel',
+            'rappend', 'rinsert', 'rplace', 'requip', 'rremove', 'rfree', 'rclear', 'charge', 'state', 'target',
+            'mode', 'level', 'fladd', 'flrm', 'flclear', 'get', 'read', 'keys', 'm_mod', 'm_pymod', 'm_effect',
+            'm_teffect', 'switch', 'randomize', 'ability'}
+
 SCENARIOS = [cap_moves, resist_moves, chain_over_projection, burst_charge, buff_tie, retarget_reload, slot_index,
              propulsion, ancillary, propulsion_batch, rejected_assignment, autocharge_state, burst_nobase,
-             refused_join, unloaded_container, drone_target]
+             refused_join, unloaded_container, drone_target, self_skillrq]
 
 
 def scenarios(rng, tier):
@@ -541,5 +573,7 @@ def scenarios(rng, tier):
     for fn in SCENARIOS:
         for k in range(max(n, {burst_charge: 6, propulsion_batch: 4, burst_nobase: 4, drone_target: 4}.get(fn, n))):
             name, ul, ops, meta = fn(rng, k)
+            bad = [l for l in ops if l.split()[0] not in COMMANDS]
+            assert not bad, 'scenario %s uses unknown commands %r' % (name, bad)
             out.append(('%s%d' % (name, k), ul, ops, meta))
     return out
